@@ -97,12 +97,19 @@ package mocktikv
 //@   ensures exclusive: err == nil ==> !(ttl > 0 && commitTS > 0)
 //@   ensures pushed: err == nil && ttl > 0 && action == kvrpcpb.Action_MinCommitTSPushed && callerStartTS != 18446744073709551615 ==> lock.minCommitTS > callerStartTS
 
-// GC refuses a key that carries a lock at or below the safe point and writes what it collected. (Which versions it
-// collects is not specified here.)
+// GC refuses a key that carries a lock at or below the safe point and writes what it collected.
 //@ func (*MVCCLevelDB) GC
 //@   prop C12
 //@   opaque-callee newScanIterator Decode Valid Release mvccDecode mvccEncode Key
 //@   at def(keepNext) assert unlocked: !(ok && lockDec.lock.startTS <= safePoint)
+// Which versions of a key are collected (reads at or above the safe point must not change): versions above the safe point
+// are kept; of those at or below it, the newest DATA version (put or delete) decides what such reads see - it is kept if
+// it is a put (a delete is removed, reads see nothing either way) and every older data version is removed; records
+// without data (rollback markers, lock records) are removed and do NOT use up the "newest version" slot.
+//@   loop 2 step above: dec.value.commitTS > safePoint ==> batch.n == prev(batch.n) && keepNext == prev(keepNext)
+//@   loop 2 step nodata: dec.value.commitTS <= safePoint && dec.value.valueType != typePut && dec.value.valueType != typeDelete ==> batch.n == prev(batch.n) + 1 && keepNext == prev(keepNext)
+//@   loop 2 step newest: dec.value.commitTS <= safePoint && prev(keepNext) && dec.value.valueType == typePut ==> batch.n == prev(batch.n) && !keepNext
+//@   loop 2 step older: dec.value.commitTS <= safePoint && (dec.value.valueType == typePut || dec.value.valueType == typeDelete) && (!prev(keepNext) || dec.value.valueType == typeDelete) ==> batch.n == prev(batch.n) + 1 && !keepNext
 //@   ensures persisted: result == nil ==> batch.written
 
 // The lock decoder answers "found" only without error (every error path returns false).
@@ -144,6 +151,9 @@ package mocktikv
 //@   at call(checkConflictValue) assert ownpessimistic: alreadyLocked ==> dec.lock.startTS == lctx.startTS && dec.lock.op == kvrpcpb.Op_PessimisticLock
 //@   ensures foreign: alreadyLocked && dec.lock.startTS != startTS ==> result != nil && batch.n == old(batch.n)
 //@   ensures ownprewrite: alreadyLocked && dec.lock.startTS == startTS && dec.lock.op != kvrpcpb.Op_PessimisticLock ==> result != nil && batch.n == old(batch.n)
+// repeating (or replaying an older copy of) a lock request never lowers the for-update timestamp of the lock in place: the
+// lock is rewritten only when there was none or the request's for-update timestamp is larger
+//@   ensures monotone: result == nil && alreadyLocked && dec.lock.forUpdateTS >= lctx.forUpdateTS ==> batch.n == old(batch.n)
 
 // A pessimistic rollback removes a lock only if it is a PESSIMISTIC lock of the transaction whose for-update timestamp
 // does not exceed the request's: a prewrite lock is never removed this way, nor anybody else's lock.
@@ -214,3 +224,16 @@ package mocktikv
 //@   opaque-callee newScanIterator Release Valid getDB
 //@   loop 1 invariant bound: forall j int :: 0 <= j && j < len(locks) ==> locks[j] != nil && locks[j].LockVersion <= maxTS
 //@   ensures bound: result1 == nil ==> forall j int :: 0 <= j && j < len(result0) ==> result0[j].LockVersion <= maxTS
+
+// The read of a collected entry (used by reverse scan) answers the value of the NEWEST version that a read at the
+// timestamp can see - committed at or below it and neither a rollback marker nor a lock-only record - or nothing when
+// there is none: exactly what a point get answers, so that reverse scan mirrors scan.
+//@ spec func visibleVer(v mvccValue, ts uint64) bool { return v.commitTS <= ts && v.valueType != typeRollback && v.valueType != typeLock }
+//@ func (*mvccEntry) Get
+//@   prop C12
+//@   may-panic
+//@   opaque-callee check Raw
+//@   loop 1 invariant idx: -1 <= rangeindex && rangeindex < len(e.values)
+//@   loop 1 invariant skipped: forall j int :: 0 <= j && j <= rangeindex ==> !visibleVer(e.values[j], ts)
+//@   at return assert newest: result1 == nil ==> (defined(v) && visibleVer(v, ts)) ||
+//@       (result0 == nil && forall j int :: 0 <= j && j < len(e.values) ==> !visibleVer(e.values[j], ts))
